@@ -2,13 +2,13 @@
 # Sensitivity self-test: every patch in /verif/mutants and /verif/seeded is applied to a SCRATCH
 # COPY of /repo (never to /repo itself) and the quick check of the property it breaks must
 # report a violation (exit 1). Usage: lib/sensitivity.sh [name-filter]
-# Table: <patch file relative to /verif> <R = apply reversed | F = forward> <property>
+# Table: <patch file relative to /verif> <R = apply reversed | F = forward> <property> [budget of the quick run, when the default is too short for this one]
 VERIF=$(cd "$(dirname "$0")/.." && pwd)
 T=$(mktemp -d /tmp/verif-sens.XXXXXX)
 trap 'rm -rf "$T"' EXIT
 filter=${1:-}
 pass=0; fail=0; failed=""
-while read -r patch dir prop; do
+while read -r patch dir prop budget; do
 	[ -z "$patch" ] && continue
 	case "$patch" in \#*) continue;; esac
 	if [ -n "$filter" ] && [[ "$patch" != *"$filter"* ]]; then continue; fi
@@ -20,7 +20,7 @@ while read -r patch dir prop; do
 		echo "MUTANT $patch: patch does not apply: $(head -1 "$T/apply.err")"; fail=$((fail+1)); failed="$failed $patch"; continue
 	fi
 	# the module cache lookup (go list -m) needs go.mod/go.sum of the copy: present
-	out=$(REPO="$T/repo" VERIF_EVIDENCE_DIR="$T/ev" VERIF_REPLAY_DIR="$T/rp" VERIF_BUDGET=${SENS_BUDGET:-40s} "$VERIF/check" "$prop" quick 2>&1)
+	out=$(REPO="$T/repo" VERIF_EVIDENCE_DIR="$T/ev" VERIF_REPLAY_DIR="$T/rp" VERIF_BUDGET=${budget:-${SENS_BUDGET:-40s}} "$VERIF/check" "$prop" quick 2>&1)
 	rc=$?
 	if [ $rc -eq 1 ] && echo "$out" | grep -q "^VIOLATION property=$prop"; then
 		echo "MUTANT $patch [$prop]: detected ($(echo "$out" | grep '^violation class' | cut -c1-160))"; pass=$((pass+1))
